@@ -1708,6 +1708,8 @@ class TypedDictValue(GenericValue):
         yield self
         for entry in self.items.values():
             yield from entry.typ.walk_values()
+        if self.extra_keys is not None:
+            yield from self.extra_keys.walk_values()
 
 
 @dataclass(unsafe_hash=True, init=False)
